@@ -9,7 +9,7 @@ from hypothesis import strategies as st
 from vlib.harness import Violation
 from vlib import world as Wd
 from vlib import clihelp as H
-from vlib.cli import run_cli
+from vlib.cli import run_cli, run_cli_subprocess
 from checks import worldcheck as WC
 from checks.c16_dist_command import clean_name, STEM, EXT
 
@@ -25,7 +25,7 @@ RULE = ('Generated: a world (database with a non-default k-mer spec, nasty taxon
         'Non-trivial: a plan with >= 2 distinct genomes in non-sorted order; one evaluation = one plan; distinct by case hash.')
 ASSUMPTIONS = ['worker scheduling inside the process pool (-c) is sampled, not controlled (C13 controls completion order at the API)',
                'file names contain no newline/NUL// and, for list files, no leading/trailing blanks',
-               'commands are invoked in-process through click.testing.CliRunner with -o FILE']
+               'commands are invoked in-process through click.testing.CliRunner with -o FILE (fresh or pre-existing), a capped number per worker as real subprocesses writing to standard output']
 DEADLINE_S = {'quick': 240, 'thorough': 2400}
 
 
@@ -119,7 +119,27 @@ def run_case(case, ctx):
 			if plan['cores'] is not None:
 				args += ['-c', str(plan['cores'])]
 			args += ['--progress' if plan['progress'] else '--no-progress']
-			res = run_cli(args, env=env)
+			out_mode = plan.get('out_mode', 'file')
+			if out_mode == 'stdout':
+				# the default destination (standard output) of a real process; costs an interpreter start: capped per worker
+				lim = 4 if ctx.tier == 'quick' else 80
+				if ctx.cache.get('c08_stdout_runs', 0) >= lim:
+					out_mode = 'file'
+				else:
+					ctx.cache['c08_stdout_runs'] = ctx.cache.get('c08_stdout_runs', 0) + 1
+			if out_mode == 'stale':
+				# the output path already holds a longer, older output: nothing of it may survive
+				with open(out, 'w', encoding='utf-8') as f:
+					f.write(','.join(WC.CSV_HEADER) + '\n' + 'stale,row,,,,0.5,old,,,,\n' * 300 + '{"items": []}\n')
+				classes.add('output_path_preexists')
+			if out_mode == 'stdout':
+				i = args.index('-o')
+				res = run_cli_subprocess(args[:i] + args[i + 2:], env_extra=env)
+				with open(out, 'wb') as f:
+					f.write(res.stdout_bytes)
+				classes.add('output_to_stdout_of_subprocess')
+			else:
+				res = run_cli(args, env=env)
 			if res.exit_code != 0:
 				raise Violation('command_failed', f'{where}: exit {res.exit_code}: {res.stderr[-300:]} {res.exception!r}', case)
 			evals += 1
@@ -202,6 +222,7 @@ def gen_case(draw, tier):
 			'symlinks': draw(st.sampled_from([False, False, True])),
 			'db_via_env': draw(st.sampled_from([False, False, True])),
 			'chunksize': draw(st.sampled_from([1000, None, 1, 2, 'n+1'])),
+			'out_mode': draw(st.sampled_from(['file', 'file', 'stale', 'file', 'stdout', 'file'])),
 		})
 	return {'kind': 'plans', 'world': w, 'plans': plans}
 
